@@ -70,7 +70,8 @@ class P:
         pool_sym = ["<->", "+++", "=>", "**", "!!", "<>", "%%", "->", "|>", "::", "??", ":=", "?:", ":>", "?=", "+-+", "&&&",
                     # symbolic operators that continue with characters outside the fixed operator set
                     "=~", "!~", "-~", "<$>", "+x", "*.", "=a="]
-        pool_word = ["hi", "xor", "nand", "is", "like", "IN", "notin", "be"]
+        # word operators, also non-ASCII ones whose byte length exceeds the character count (and the length of every built-in)
+        pool_word = ["hi", "xor", "nand", "is", "like", "IN", "notin", "be", "大于等于", "estáVacío", "größerAlsOderGleich", "не", "≥≥"]
         for _ in range(nh):
             regs = []
             for _ in range(rng.randint(1, 3)):
